@@ -1,5 +1,25 @@
+import json
+
 import ratchet
 
 
 def run(ctx, replay=None):
+    rp = json.load(open(replay)) if replay else None
+    if rp and rp.get("family") == "pushsvc":
+        import pushsvc
+        pushsvc.run_part(ctx, rp)
+        return ctx.finish(level="model_checking", rule="replay: service layer (OutOfStoreSeal / OutOfStoreReceive / standalone service)", exhaustive=False,
+                          technique="replay of one recorded service-layer script; TLC trace validation against MonPushSvc")
+    if not replay:
+        # service layer: OutOfStoreSeal at the sender, OutOfStoreReceive at the receiver service and at the standalone
+        # pkg/outofstoremessage service, GroupMessageList for the log path (MonPushSvc.tla)
+        finish = ctx.finish
+
+        def finish_with_service_layer(**kw):
+            ctx.finish = finish
+            import pushsvc
+            pushsvc.run_part(ctx)
+            kw["technique"] = kw.get("technique", "") + "; service layer: three real services, OutOfStoreSeal / OutOfStoreReceive / standalone OOSM service, judged by MonPushSvc"
+            return finish(**kw)
+        ctx.finish = finish_with_service_layer
     return ratchet.run_c14(ctx, replay)
